@@ -32,7 +32,7 @@ def run(ctx):
     ctx.stage_translate(["units"])
     if not ctx.stage_build_opm():
         return ctx.finish(trusted_base=TRUSTED)
-    ok, exe, out = vlib.build_harness("units")
+    ok, exe, out = vlib.build_harness("units", extra_src=[os.path.join(vlib.VERIF, "harness", "units_quantities.cpp")])
     if not ok:
         ctx.tie_broken("harness", "units harness does not compile: " + out[-2000:])
         return ctx.finish(trusted_base=TRUSTED)
